@@ -288,8 +288,9 @@ func (g *generator) walkRef(schema *schemaparser.Schema) (ast.Type, error) {
 		return ast.Type{}, err
 	}
 
+	// the default declared by the referred schema applies to the reference
 	// TODO: get the correct package for the referred type
-	return ast.NewRef(g.schema.Package, referredKindName), nil
+	return ast.NewRef(g.schema.Package, referredKindName, ast.Default(unwrapJSONNumbers(schema.Ref.Default))), nil
 }
 
 func (g *generator) walkString(schema *schemaparser.Schema) (ast.Type, error) {
